@@ -85,6 +85,7 @@ def run(ctx):
     if not lean_ok:
         ctx.escalated = True     # a proof obligation broke: look for a concrete failing schedule / input
         model_search(ctx)
+    socket_task_search(ctx)
     if ok:
         if os.path.exists(DRIVER):
             step_diff(ctx, "vh-core", "spsc", "spsc", tier_n(ctx, 3000, 200000), lean_comp="spsc-seq")
@@ -92,6 +93,40 @@ def run(ctx):
             ctx.oblige("correspond", "D:vh-core/spsc: lean driver missing, differential run not possible", False, "")
     run_loom(ctx)
     header_observation(ctx)
+
+
+def socket_task_search(ctx):
+    """run the socket-task model with the shape read from the source NOW (Generated/SocketTask.lean) on every event
+    sequence of one poll call up to length 4: a sequence on which a release is not followed by a wake before the
+    call returns is the failing history (with the pinned shape the theorem says there is none)"""
+    import itertools
+    import re as _re
+    gen = os.path.join(LEAN_DIR, "QuicModel", "Generated", "SocketTask.lean")
+    if not (os.path.exists(DRIVER) and os.path.exists(gen)):
+        return
+    text = open(gen).read()
+    evs = ["ready", "io0", "io3", "pending", "blocked"]
+    seqs = [list(q) for n in range(1, 5) for q in itertools.product(evs, repeat=n) if q[-1] in ("pending", "blocked")
+            and not any(e in ("pending", "blocked") for e in q[:-1])]
+    for task in ("tx", "rx"):
+        m1 = _re.search(rf"def {task}WakeInPendingArm : Bool := (true|false)", text)
+        m2 = _re.search(rf"def {task}WakeAfterLoop : Bool := (true|false)", text)
+        if not (m1 and m2):
+            continue
+        a, b = int(m1.group(1) == "true"), int(m2.group(1) == "true")
+        lines = [f"poll {a} {b} " + " ".join(q) for q in seqs]
+        rc, outs, err = run_lines([DRIVER, "socket-task"], lines)
+        ctx.evaluations += len(lines)
+        lost = [(l, o) for l, o in zip(lines, outs) if o.startswith("ok lost")]
+        ctx.oblige("oracle", f"socket task {task}: with the wake sites now in the source no event sequence of one poll call (<= 4 events, "
+                   f"{len(lines)} sequences) returns with released entries and no wake", not lost or not ctx.violation(
+                       f"socket-task:lost-wakeup:{task}",
+                       f"task/{task}.rs: shape (wake in Pending arm = {bool(a)}, wake after loop = {bool(b)}): `{lost[0][0]}` -> `{lost[0][1]}`: "
+                       "entries are released to the endpoint and the call returns without waking it",
+                       {"kind": "model-history", "model_component": "socket-task", "ops": [lost[0][0]], "answer": lost[0][1]}, found_input=True),
+                   lost[0][0] if lost else "")
+        if lost:
+            ctx.obligations[-1]["explained"] = True
 
 
 def header_observation(ctx):
